@@ -1167,6 +1167,90 @@ func HelperInitRule(w *World, b *Backend, r *Result, rule string, only func(help
 				}
 			}
 		}
+		// Bash: the same for a routine of the Bash back end. A variable the routine assigns and reads
+		// (a cache it keeps for itself) must have been assigned on every way to its first read: on a
+		// line outside every if / loop of the routine, or earlier in a block that is still open. A
+		// value kept from the previous invocation describes another slice, or the same slice before
+		// somebody else changed it.
+		if b.Role == "bash" {
+			depth := 0
+			depthAt := make([]int, len(lines)+1)
+			type asg struct{ line, depth int }
+			assigned := map[string][]asg{}
+			firstRead := map[string]int{}
+			reRead := regexp.MustCompile(`\$\{?([A-Za-z_][A-Za-z0-9_]*)`)
+			reFor := regexp.MustCompile(`\(\(([A-Za-z_][A-Za-z0-9_]*)=`)
+			reWord := regexp.MustCompile(`(?:^|[;\s])(if|for|while|until|case)\s`)
+			reEnd := regexp.MustCompile(`(?:^|[;\s])(fi|done|esac)(?:$|[;\s])`)
+			for i, l := range lines {
+				txt, _ := flattenPUA(l.Variant)
+				t := strings.TrimSpace(txt)
+				if strings.HasPrefix(t, "#") {
+					depthAt[i] = depth
+					continue
+				}
+				opens := len(reWord.FindAllString(" "+t, -1))
+				closes := len(reEnd.FindAllString(" "+t+" ", -1))
+				// a line that only closes: the closing takes effect before the line is read
+				if opens == 0 && closes > 0 {
+					depth -= closes
+					closes = 0
+				}
+				depthAt[i] = depth
+				// reads first (v=${v}… reads before it assigns; that case is the self-update below)
+				for _, m := range reRead.FindAllStringSubmatch(t, -1) {
+					if _, ok := firstRead[m[1]]; !ok {
+						firstRead[m[1]] = i
+					}
+				}
+				for _, m := range reAssign.FindAllStringSubmatch(t, -1) {
+					if !strings.Contains(m[3], "${"+m[2]+"}") && !strings.Contains(m[3], "$"+m[2]) {
+						d := depth
+						if opens > 0 && !strings.HasPrefix(t, m[1]+m[2]+"=") {
+							d = depth + 1 // if …; then v=…
+						}
+						assigned[m[2]] = append(assigned[m[2]], asg{i, d})
+					}
+				}
+				if m := reFor.FindStringSubmatch(t); m != nil {
+					assigned[m[1]] = append(assigned[m[1]], asg{i, depth})
+				}
+				depth += opens - closes
+			}
+			var vars []string
+			for v := range assigned {
+				vars = append(vars, v)
+			}
+			sort.Strings(vars)
+			for _, v := range vars {
+				rd, isRead := firstRead[v]
+				if !isRead {
+					continue
+				}
+				key := fmt.Sprintf("init:%s:%s:%s:first-read", b.Role, h, v)
+				pos := w.Pos(lines[rd].Em.Pos)
+				okAt := -1
+				for _, a := range assigned[v] {
+					if a.line > rd || (a.line == rd && !strings.HasPrefix(strings.TrimSpace(lines[rd].Variant.String()), "for ((")) {
+						continue
+					}
+					open := true
+					for k := a.line + 1; k <= rd; k++ {
+						if depthAt[k] < a.depth {
+							open = false
+						}
+					}
+					if open {
+						okAt = a.line
+					}
+				}
+				if okAt >= 0 {
+					r.Ok(rule, key, pos, fmt.Sprintf("%s is assigned on line %d of the routine on every way to its first read on line %d", v, okAt+1, rd+1))
+				} else {
+					r.Bad(rule, key, pos, fmt.Sprintf("helper %s reads %s on line %d (%s) although no assignment of the routine has been passed on every way there: its value is what the previous invocation left — for another slice, or before somebody else changed this one", h, v, rd+1, strings.TrimSpace(lines[rd].Variant.String())))
+				}
+			}
+		}
 		seen := map[string]bool{}
 		for _, u := range selfs {
 			if seen[u.v] {
